@@ -189,14 +189,14 @@ Fixpoint okey_ok (t : oty) : bool :=
   match t with
   | OPrim (PFloat _) => false
   | OPrim _ | OUnit _ | ORaw _ => true
-  | OText XString | OText XAsciiString => true
+  | OText XString | OText XAsciiString | OText XStr => true
   | OText _ => false
   | OSeq SVec t' | OSeq SBTreeSet t' => okey_ok t'
   | OSeq _ _ => false
   | OArray _ t' => okey_ok t'
   | OProd k ts => (forallb negb (prod_skips k (length ts))) && forallb (fun x => okey_ok x) ts
   | OSum _ vs => forallb (fun x => okey_ok x) vs
-  | OWrap WBox t' => okey_ok t'
+  | OWrap (WBox | WRc | WArc | WCow) t' => okey_ok t'
   | OWrap _ _ => false
   | ORef _ => false
   end.
